@@ -840,7 +840,24 @@ def gen_lp(rng, tier='quick', ints=False, outcome='optimal', patterns=None, fron
         spec['empty_rows'].append(('le', float(np.round(rng.uniform(0, 1), 2))))
     if outcome == 'infeasible':
         r = rng.random()
-        if r < 0.4:
+        if r < 0.3:
+            # crossing user bounds on one variable (or, for an integer one, an interval
+            # without an integer point)
+            i = int(rng.integers(nx))
+            b = spec['bounds'][i]
+            vt_i = vt_all[i]
+            if vt_i != 'C' and rng.random() < 0.5:
+                base = float(rng.integers(-2, 3)) if vt_i == 'I' else 0.0
+                b['lo'], b['hi'] = base + 0.3, base + 0.7
+            else:
+                ref = b['hi'] if np.isfinite(b['hi']) else (b['lo'] if np.isfinite(b['lo'])
+                                                            else float(xstar[i]))
+                b['hi'] = float(ref)
+                b['lo'] = float(ref) + float(np.round(rng.uniform(0.5, 2), 1))
+            b['pattern'] = 'crossing'
+            if rng.random() < 0.8:
+                b['style'] = 'obj'
+        elif r < 0.45:
             spec['empty_rows'].append(('le', -1.0))
         elif r < 0.5:
             spec['empty_rows'].append(('eq', 1.0))
